@@ -652,6 +652,49 @@ func namedHolder(st *explore.Step) []V {
 				bad("the curator of the new basket "+r.BasketDenom, b.Curator, msg.Curator)
 			}
 		}
+	case *basetypes.MsgAddAllowedBridgeChain, *basetypes.MsgRemoveAllowedBridgeChain, *basetypes.MsgAddClassCreator, *basetypes.MsgRemoveClassCreator,
+		*basetypes.MsgSetClassCreatorAllowlist, *markettypes.MsgAddAllowedDenom, *markettypes.MsgRemoveAllowedDenom:
+		// list-type parameters: after a successful message the named entry is present / absent as told
+		want, what, present := true, "", false
+		switch x := msg.(type) {
+		case *basetypes.MsgAddAllowedBridgeChain:
+			what = "bridge chain " + strings.ToLower(x.ChainName)
+			for _, c := range post.BridgeChains {
+				present = present || c.ChainName == strings.ToLower(x.ChainName)
+			}
+		case *basetypes.MsgRemoveAllowedBridgeChain:
+			want, what = false, "bridge chain "+strings.ToLower(x.ChainName)
+			for _, c := range post.BridgeChains {
+				present = present || c.ChainName == strings.ToLower(x.ChainName)
+			}
+		case *basetypes.MsgAddClassCreator:
+			what = "class creator " + x.Creator
+			for _, c := range post.AllowedCreators {
+				present = present || addrStr(c.Address) == canon(x.Creator)
+			}
+		case *basetypes.MsgRemoveClassCreator:
+			want, what = false, "class creator "+x.Creator
+			for _, c := range post.AllowedCreators {
+				present = present || addrStr(c.Address) == canon(x.Creator)
+			}
+		case *basetypes.MsgSetClassCreatorAllowlist:
+			want, what = x.Enabled, "the class creator allowlist switch"
+			present = post.Allowlist != nil && post.Allowlist.Enabled
+		case *markettypes.MsgAddAllowedDenom:
+			what = "allowed denom " + x.BankDenom
+			for _, d := range post.AllowedDenoms {
+				present = present || d.BankDenom == x.BankDenom
+			}
+		case *markettypes.MsgRemoveAllowedDenom:
+			want, what = false, "allowed denom "+x.Denom
+			for _, d := range post.AllowedDenoms {
+				present = present || d.BankDenom == x.Denom
+			}
+		}
+		if present != want {
+			out = append(out, V{Kind: "C08/parameter-not-changed-as-the-message-says/" + actType(st.Act),
+				Detail: fmt.Sprintf("%s succeeded, %s: present/on=%v, the message asks for %v", st.Act.Label, what, present, want)})
+		}
 	case *data.MsgDefineResolver:
 		if r, ok := st.Res.Resp.(*data.MsgDefineResolverResponse); ok {
 			for _, x := range post.Resolvers {
